@@ -98,8 +98,8 @@ def decode(d):
         for n in reversed(d["shape"][1:]):
             T = ["regular", T, n]
         vals = arr.tolist()
-        if arr.dtype.kind == "b" or arr.dtype.kind in "iufc":
-            pass
+        if arr.dtype.kind in "Mm" and arr.ndim == 1:
+            vals = list(arr)   # numpy datetime64/timedelta64 scalars (what same_value compares), not datetime.datetime
         if params.get("__array__") in ("char", "byte") and arr.ndim == 1:
             T = prim(d["dtype"])
         return T, vals
